@@ -3,9 +3,14 @@
 //! Bounded-exhaustive enumeration of expression trees (all shapes with <= n binary operators, all
 //! 16 binary operators at every inner node, a leaf alphabet at every leaf, unary `!`/`-`/redundant
 //! parentheses as deviations), each rendered with parentheses dropped ONLY where the documented
-//! rules fix the reading, assembled by the real parser + code generator in batches of `.dword <e>`
-//! lines (`.byte`/`.word` for the truncation clause, `.text [enc] <e>` for string-valued trees) and
-//! compared with a reference evaluator written here (plain checked i64 arithmetic).
+//! rules fix the reading, assembled by the real parser + code generator in batches of 200 values
+//! (`.dword <e>, <e>, ...` lines of up to 16 values, an expression using `*` always first on its
+//! line; `.byte`/`.word` for the truncation clause, `.text [enc] <e>` for string-valued trees) and
+//! compared with a reference evaluator written here (plain checked i64 arithmetic). A batch that
+//! is rejected, panics or yields other bytes is bisected down to single expressions; a failing
+//! expression is reduced to its smallest failing subtree and generalised into a signature
+//! (operator + operand classes). Larger trees that contain an instance of a signature that already
+//! failed are counted and not run, so that one defect does not flood the run.
 //!
 //! Reference side decides the domain: intermediate overflow, divisor 0, shift count outside 0..31,
 //! negative shifted value, and ill-typed string/number mixtures are counted, never run.
@@ -73,43 +78,51 @@ struct LeafDef {
     kind: &'static str,
     /// spelling class
     form: &'static str,
+    /// class of the leaf when it is an operand (how the token starts); `""` = same as `form`
+    oform: &'static str,
 }
 
 const W: i64 = 0x12345;
 const LABEL_ADDR: i64 = 0x2000;
 const BASE_PC: i64 = 0x2004;
 
-const fn leaf(text: &'static str, v: LV, kind: &'static str, form: &'static str) -> LeafDef {
-    LeafDef { text, v, kind, form }
+const fn leaf(text: &'static str, v: LV, kind: &'static str, form: &'static str, oform: &'static str) -> LeafDef {
+    LeafDef {
+        text,
+        v,
+        kind,
+        form,
+        oform,
+    }
 }
 
 const LEAVES: [LeafDef; 26] = [
-    leaf("0", LV::N(0), "literal", "dec"),                        // 0
-    leaf("1", LV::N(1), "literal", "dec"),                        // 1
-    leaf("2", LV::N(2), "literal", "dec"),                        // 2
-    leaf("7", LV::N(7), "literal", "dec"),                        // 3
-    leaf("255", LV::N(255), "literal", "dec"),                    // 4
-    leaf("256", LV::N(256), "literal", "dec"),                    // 5
-    leaf("$ff", LV::N(255), "literal", "hex"),                    // 6
-    leaf("$0100", LV::N(256), "literal", "hex-leading-zero"),     // 7
-    leaf("%101", LV::N(5), "literal", "bin"),                     // 8
-    leaf("007", LV::N(7), "literal", "dec-leading-zero"),         // 9
-    leaf("$0a", LV::N(10), "literal", "hex-leading-zero"),        // 10
-    leaf("true", LV::N(1), "literal", "bool"),                    // 11
-    leaf("false", LV::N(0), "literal", "bool"),                   // 12
-    leaf("c", LV::N(5), "ident", "const"),                        // 13
-    leaf("l", LV::N(LABEL_ADDR), "ident", "label"),               // 14
-    leaf("s", LV::S("ab"), "ident", "strconst"),                  // 15
-    leaf("t", LV::S("b"), "ident", "strconst"),                   // 16
-    leaf("*", LV::Pc, "pc", "star"),                              // 17
-    leaf("<w", LV::N(W & 255), "modifier", "<name"),           // 18
-    leaf(">w", LV::N((W >> 8) & 255), "modifier", ">name"),    // 19
-    leaf("defined(c)", LV::N(1), "defined()", "defined-name"),    // 20
-    leaf("defined(nope)", LV::N(0), "defined()", "undefined-name"), // 21
-    leaf("\"a{t}\"", LV::S("ab"), "string", "interpolated"),      // 22
-    leaf("%0110", LV::N(6), "literal", "bin-leading-zero"),       // 23
-    leaf("TRUE", LV::N(1), "literal", "bool-upper-case"),         // 24
-    leaf("u", LV::S("hello, world!"), "ident", "strconst"),       // 25 (text family only)
+    leaf("0", LV::N(0), "literal", "dec", ""),                        // 0
+    leaf("1", LV::N(1), "literal", "dec", ""),                        // 1
+    leaf("2", LV::N(2), "literal", "dec", ""),                        // 2
+    leaf("7", LV::N(7), "literal", "dec", ""),                        // 3
+    leaf("255", LV::N(255), "literal", "dec", ""),                    // 4
+    leaf("256", LV::N(256), "literal", "dec", ""),                    // 5
+    leaf("$ff", LV::N(255), "literal", "hex", "$hex"),                    // 6
+    leaf("$0100", LV::N(256), "literal", "hex-leading-zero", "$hex"),     // 7
+    leaf("%101", LV::N(5), "literal", "bin", "%bin"),                     // 8
+    leaf("007", LV::N(7), "literal", "dec-leading-zero", ""),         // 9
+    leaf("$0a", LV::N(10), "literal", "hex-leading-zero", "$hex"),        // 10
+    leaf("true", LV::N(1), "literal", "bool", ""),                    // 11
+    leaf("false", LV::N(0), "literal", "bool", ""),                   // 12
+    leaf("c", LV::N(5), "ident", "const", ""),                        // 13
+    leaf("l", LV::N(LABEL_ADDR), "ident", "label", ""),               // 14
+    leaf("s", LV::S("ab"), "ident", "strconst", ""),                  // 15
+    leaf("t", LV::S("b"), "ident", "strconst", ""),                   // 16
+    leaf("*", LV::Pc, "pc", "star", "*"),                              // 17
+    leaf("<w", LV::N(W & 255), "modifier", "<name", "<name"),           // 18
+    leaf(">w", LV::N((W >> 8) & 255), "modifier", ">name", ">name"),    // 19
+    leaf("defined(c)", LV::N(1), "defined()", "defined-name", "call"),    // 20
+    leaf("defined(nope)", LV::N(0), "defined()", "undefined-name", "call"), // 21
+    leaf("\"a{t}\"", LV::S("ab"), "string", "interpolated", "string"),      // 22
+    leaf("%0110", LV::N(6), "literal", "bin-leading-zero", "%bin"),       // 23
+    leaf("TRUE", LV::N(1), "literal", "bool-upper-case", ""),         // 24
+    leaf("u", LV::S("hello, world!"), "ident", "strconst", ""),       // 25 (text family only)
 ];
 const L_S: u8 = 15;
 const L_T: u8 = 16;
@@ -127,6 +140,8 @@ fn all_leaves(thorough: bool) -> Vec<u8> {
 }
 /// reduced set for n = 2 with deviations: `0 2 007 $0100 %101 c * >w`
 const QUICK_LEAVES: [u8; 8] = [0, 2, 9, 7, 8, 13, 17, 19];
+/// quick, n = 2 with one deviation: `0 007 $0100 c`
+const QUICK4_LEAVES: [u8; 4] = [0, 9, 7, 13];
 /// n = 3: `0 2 7 $0100`
 const DEEP_LEAVES: [u8; 4] = [0, 2, 3, 7];
 
@@ -475,6 +490,7 @@ struct Item {
     src: String,
     expect: Vec<u8>,
     value: V,
+    uses_pc: bool,
 }
 
 fn make_item(tree: &T, dir: Dir, pc: i64) -> Result<Item, Skip> {
@@ -487,17 +503,41 @@ fn make_item(tree: &T, dir: Dir, pc: i64) -> Result<Item, Skip> {
         src: render(tree),
         expect,
         value,
+        uses_pc: uses_pc(tree),
     })
 }
+
+/// Up to `PACK` expressions share one `.byte/.word/.dword a, b, c` line (the documented list
+/// form; it spares the parser's per-statement cost). An expression that uses `*` is always the
+/// first of its line, so that "current PC" can only mean the address of that very value.
+const PACK: usize = 16;
 
 fn program(items: &[Item]) -> String {
     let mut s = String::with_capacity(PRELUDE.len() + 16 + items.len() * 32);
     s.push_str(PRELUDE);
     let _ = writeln!(s, "* = ${:04x}", items.first().map(|i| i.pc).unwrap_or(BASE_PC));
+    let mut on_line = 0usize;
+    let mut open: Option<Dir> = None; // directive of the line that may still take elements
     for it in items {
+        // may join a line: not using `*`; may open a line that others join: any integer directive
+        // (for the first value of a list "current PC" is the statement's and the value's address)
+        let joins = it.dir.fixed() && !it.uses_pc;
+        if joins && open == Some(it.dir) && on_line < PACK {
+            s.push_str(", ");
+            s.push_str(&it.src);
+            on_line += 1;
+            continue;
+        }
+        if !s.ends_with('\n') {
+            s.push('\n');
+        }
         s.push_str(it.dir.text());
         s.push(' ');
         s.push_str(&it.src);
+        on_line = 1;
+        open = if it.dir.fixed() { Some(it.dir) } else { None };
+    }
+    if !s.ends_with('\n') {
         s.push('\n');
     }
     s
@@ -643,7 +683,10 @@ fn operand_form(e: &T, ctx_paren: bool) -> String {
         return "(x)".into();
     }
     match e {
-        T::L(i) => LEAVES[*i as usize].form.to_string(),
+        T::L(i) => {
+            let d = &LEAVES[*i as usize];
+            if d.oform.is_empty() { d.form } else { d.oform }.to_string()
+        }
         T::Lit(_) => "int".into(),
         T::SLit(s) => {
             if s.contains('{') {
@@ -801,7 +844,7 @@ impl<'a> G<'a> {
     }
 
     fn single_item(&self, item: &Item) -> Outcome {
-        let key = (item.src.clone(), item.dir, if uses_pc(&item.tree) { item.pc } else { 0 });
+        let key = (item.src.clone(), item.dir, if item.uses_pc { item.pc } else { 0 });
         if let Some(o) = self.memo.lock().unwrap().get(&key) {
             return o.clone();
         }
@@ -1026,6 +1069,13 @@ impl<'a> G<'a> {
                 }
             }
             pats.push(OpPat { form, vc: vcp });
+        }
+        // an unparenthesised binary operand means the failure is about precedence / associativity:
+        // the pair of operators names it, value classes would only multiply the signatures
+        if operands(x).iter().any(|(e, paren)| matches!(e, T::B(..)) && !*paren) {
+            for p in pats.iter_mut() {
+                p.vc = None;
+            }
         }
         match x {
             T::Not(_) => Pat::Un(0, pats.remove(0)),
@@ -1616,28 +1666,6 @@ pub fn run(ctx: &Ctx, replay_case: Option<&Value>) -> i32 {
     if let Some(c) = replay_case {
         return replay(c);
     }
-    if std::env::var("C03_BENCH").is_ok() {
-        let mut text = String::from(PRELUDE);
-        text.push_str("* = $2004\n");
-        let per_line: usize = std::env::var("C03_BENCH").unwrap().parse().unwrap_or(1);
-        for i in 0..(200 / per_line) {
-            text.push_str(".dword ");
-            for k in 0..per_line {
-                if k > 0 { text.push_str(", "); }
-                text.push_str(&format!("(c + {}) * 7 - l", i));
-            }
-            text.push('\n');
-        }
-        let t = std::time::Instant::now();
-        for _ in 0..50 { let _ = probe::parse_files(&[("main.asm", &text)]); }
-        let tp = t.elapsed().as_secs_f64() / 50.0;
-        let t = std::time::Instant::now();
-        let mut passes = 0;
-        for _ in 0..50 { let b = probe::asm(&text).unwrap(); passes = b.passes; assert!(b.ok()); }
-        let ta = t.elapsed().as_secs_f64() / 50.0;
-        println!("parse {:.1} us/expr, parse+codegen {:.1} us/expr, passes {}", tp * 1e6 / 200.0, ta * 1e6 / 200.0, passes);
-        return 0;
-    }
     if let Err(e) = self_check() {
         eprintln!("C03: MACHINERY: {}", e);
         return 2;
@@ -1673,7 +1701,12 @@ pub fn run(ctx: &Ctx, replay_case: Option<&Value>) -> i32 {
     if thorough {
         fams.push(Family::new("n2:all-leaves", 2, &leaves, DevMode::NoDev, DirMode::Natural));
     }
-    fams.push(Family::new("n2:8-leaves:one-deviation", 2, &QUICK_LEAVES, DevMode::Single(three), DirMode::Natural));
+    if thorough {
+        fams.push(Family::new("n2:8-leaves:one-deviation", 2, &QUICK_LEAVES, DevMode::Single(three), DirMode::Natural));
+    } else {
+        fams.push(Family::new("n2:8-leaves", 2, &QUICK_LEAVES, DevMode::NoDev, DirMode::Natural));
+        fams.push(Family::new("n2:4-leaves:one-deviation", 2, &QUICK4_LEAVES, DevMode::Single(three), DirMode::Natural));
+    }
     if thorough {
         fams.push(Family::new("n2:8-leaves:.byte/.word", 2, &QUICK_LEAVES, DevMode::NoDev, DirMode::Trunc));
         fams.push(Family::new("n3:4-leaves", 3, &DEEP_LEAVES, DevMode::NoDev, DirMode::Natural));
@@ -1695,7 +1728,7 @@ pub fn run(ctx: &Ctx, replay_case: Option<&Value>) -> i32 {
 
     ctx.finish(
         "exploration",
-        "every expression tree of the stated families (all shapes x all 16 binary operators at every inner node x leaf alphabet at every leaf x unary/parenthesis deviations) whose reference evaluation stays inside the domain is rendered with parentheses dropped only where the documentation fixes the reading and assembled by the real parser+codegen (one evaluation = one `.dword/.word/.byte/.text <expr>` line, 200 lines per program, failing programs bisected to single lines); non-trivial = distinct (directive, expression text) containing at least one operator, modifier, function call, interpolation or parenthesis",
+        "every expression tree of the stated families (all shapes x all 16 binary operators at every inner node x leaf alphabet at every leaf x unary/parenthesis deviations) whose reference evaluation stays inside the domain is rendered with parentheses dropped only where the documentation fixes the reading and assembled by the real parser+codegen (one evaluation = one expression observed through `.dword/.word/.byte/.text`, 200 per program in list lines of up to 16 values, failing programs bisected to single expressions); non-trivial = distinct (directive, expression text) containing at least one operator, modifier, function call, interpolation or parenthesis",
         true,
         &[
             "reference evaluator: checked i64 arithmetic, `/` truncates toward zero, `%` takes the sign of the dividend, `^` on two's complement, comparisons and && || give 0/1, !x = 1 iff x == 0",
@@ -1703,7 +1736,8 @@ pub fn run(ctx: &Ctx, replay_case: Option<&Value>) -> i32 {
             "parentheses are dropped only for `* / %` under `+ -`, for a left operand of the same class within {* / %} or {+ -}, and for a left operand with the identical operator; a modifier (! or -) applies to the factor that follows; `!-x` is never written",
             "petscii/petscreen are claimed only for a-z 0-9 space . , ! (letters -> $41.. / $01.., rest unchanged); no encoding keyword = ascii as documented",
             "leaf alphabet and depth bound as listed under family:*; values are fixed representatives, not all integers",
-            "a tree containing a subtree that already failed when observed alone is not run again (counted); one defect can mask another in the same tree",
+            "a tree containing an instance of a signature (operator + operand classes) that already failed in a smaller family is not run again (counted under not_run_contains_instance_of_a_failing_signature); one defect can mask another in the same tree",
+            "`*` is only ever the first value of a data line, where the statement's and the value's address coincide",
             "release arithmetic profile (overflow checks off), in-process mos-core",
         ],
     )
